@@ -32,7 +32,6 @@ NOT_APPLICABLE = {
  "C34": "Booklet/n-up placement is combinatorial arithmetic over page counts and configurations (permutations of page numbers); no table or sibling pair whose agreement is a necessary condition was found.",
  "C35": "Key/value-store behaviour over edit histories, incl. Unicode values and attachment bytes. The text-encoding clause is covered by C13's decoder table; set semantics of keywords/properties and attachment byte identity are value-level.",
  "C37": "Form export/fill round trip over field values (per field type value formatting and appearance generation): value-level.",
- "C38": "Watermark add/remove inverse over page content bytes (content-stream patching and artifact removal): value-level.",
  "C39": "Name-tree ordering/limits invariants are maintained by value comparisons on keys; the insertion, split and limit-update code (model/nameTree.go) was read in round 3 without finding a table or pairing clause; a shape analysis for sorted tree nodes is out of reach with the tools present.",
 }
 
